@@ -97,4 +97,454 @@ theorem hasDerivAt_pzmap (T : ℝ) {ρ : ℝ} (h : |ρ| < 1) :
   refine ((hasDerivAt_artanh this.1 this.2).const_mul (2 * T)).congr_deriv ?_
   ring
 
+/-! ## Inverse relations of the simple grid -/
+
+/-- `|z/√(L²+z²)| < 1` : the compact position always lies in the open interval. -/
+theorem zcompact_abs_lt_one {L : ℝ} (hL : L ≠ 0) (z : ℝ) : |z / √(L ^ 2 + z ^ 2)| < 1 := by
+  have hpos : 0 < L ^ 2 + z ^ 2 := by positivity
+  have hs : 0 < √(L ^ 2 + z ^ 2) := Real.sqrt_pos.mpr hpos
+  rw [abs_div, abs_of_pos hs, div_lt_one hs]
+  apply Real.lt_sqrt_of_sq_lt
+  rw [sq_abs]
+  have : 0 < L ^ 2 := by positivity
+  linarith
+
+/-- compactify ∘ decompactify = id on the position component (`L > 0`, `|χ| < 1`). -/
+theorem zcompact_zmap {L χ : ℝ} (hL : 0 < L) (h : |χ| < 1) :
+    (L * χ / √(1 - χ ^ 2)) / √(L ^ 2 + (L * χ / √(1 - χ ^ 2)) ^ 2) = χ := by
+  have hw := one_sub_sq_pos h
+  have hs : 0 < √(1 - χ ^ 2) := Real.sqrt_pos.mpr hw
+  have hs2 : √(1 - χ ^ 2) ^ 2 = 1 - χ ^ 2 := Real.sq_sqrt hw.le
+  have e : L ^ 2 + (L * χ / √(1 - χ ^ 2)) ^ 2 = (L / √(1 - χ ^ 2)) ^ 2 := by
+    field_simp; rw [hs2]; ring
+  rw [e, Real.sqrt_sq (by positivity)]
+  field_simp
+
+/-- decompactify ∘ compactify = id on the position component (`L > 0`, any real `z`). -/
+theorem zmap_zcompact {L : ℝ} (hL : 0 < L) (z : ℝ) :
+    L * (z / √(L ^ 2 + z ^ 2)) / √(1 - (z / √(L ^ 2 + z ^ 2)) ^ 2) = z := by
+  have hpos : 0 < L ^ 2 + z ^ 2 := by positivity
+  have hs : 0 < √(L ^ 2 + z ^ 2) := Real.sqrt_pos.mpr hpos
+  have hs2 : √(L ^ 2 + z ^ 2) ^ 2 = L ^ 2 + z ^ 2 := Real.sq_sqrt hpos.le
+  have e : 1 - (z / √(L ^ 2 + z ^ 2)) ^ 2 = (L / √(L ^ 2 + z ^ 2)) ^ 2 := by
+    field_simp; rw [hs2]; ring
+  rw [e, Real.sqrt_sq (by positivity)]
+  field_simp
+
+theorem pzcompact_pzmap {T ρ : ℝ} (hT : T ≠ 0) (h : |ρ| < 1) :
+    Real.tanh (2 * T * WG.R.artanh ρ / 2 / T) = ρ := by
+  have e : 2 * T * WG.R.artanh ρ / 2 / T = Real.artanh ρ := by
+    unfold WG.R.artanh; field_simp
+  have := abs_lt.mp h
+  rw [e, Real.tanh_artanh ⟨this.1, this.2⟩]
+
+theorem pzmap_pzcompact {T : ℝ} (hT : T ≠ 0) (pz : ℝ) :
+    2 * T * WG.R.artanh (Real.tanh (pz / 2 / T)) = pz := by
+  unfold WG.R.artanh
+  rw [Real.artanh_tanh]; field_simp
+
+theorem ppcompact_ppmap {T ρ : ℝ} (hT : T ≠ 0) (h : ρ < 1) :
+    1 - 2 * Real.exp (-(-T * Real.log ((1 - ρ) / 2)) / T) = ρ := by
+  have e : -(-T * Real.log ((1 - ρ) / 2)) / T = Real.log ((1 - ρ) / 2) := by field_simp
+  have hpos : 0 < (1 - ρ) / 2 := by linarith
+  rw [e, Real.exp_log hpos]; ring
+
+theorem ppmap_ppcompact {T : ℝ} (hT : T ≠ 0) (pp : ℝ) :
+    -T * Real.log ((1 - (1 - 2 * Real.exp (-pp / T))) / 2) = pp := by
+  have e : (1 - (1 - 2 * Real.exp (-pp / T))) / 2 = Real.exp (-pp / T) := by ring
+  rw [e, Real.log_exp]; field_simp
+
+/-- physical `pp ≥ 0` lands in `[-1,1)`. -/
+theorem ppcompact_mem {T pp : ℝ} (hT : 0 < T) (hpp : 0 ≤ pp) :
+    -1 ≤ 1 - 2 * Real.exp (-pp / T) ∧ 1 - 2 * Real.exp (-pp / T) < 1 := by
+  have h1 : Real.exp (-pp / T) ≤ 1 := by
+    rw [Real.exp_le_one_iff]
+    exact div_nonpos_of_nonpos_of_nonneg (by linarith) hT.le
+  have h2 := Real.exp_pos (-pp / T)
+  constructor <;> linarith
+
+/-! ## The smoothed step `t ↦ t/√(a²+t²)` -/
+
+theorem step_abs_lt_one {a : ℝ} (ha : a ≠ 0) (t : ℝ) : |t / √(a ^ 2 + t ^ 2)| < 1 :=
+  zcompact_abs_lt_one ha t
+
+theorem step_mono {a t1 t2 : ℝ} (ha : a ≠ 0) (h : t1 ≤ t2) :
+    t1 / √(a ^ 2 + t1 ^ 2) ≤ t2 / √(a ^ 2 + t2 ^ 2) := by
+  have hp1 : 0 < a ^ 2 + t1 ^ 2 := by positivity
+  have hp2 : 0 < a ^ 2 + t2 ^ 2 := by positivity
+  have hs1 : 0 < √(a ^ 2 + t1 ^ 2) := Real.sqrt_pos.mpr hp1
+  have hs2 : 0 < √(a ^ 2 + t2 ^ 2) := Real.sqrt_pos.mpr hp2
+  have e1 : √(a ^ 2 + t1 ^ 2) ^ 2 = a ^ 2 + t1 ^ 2 := Real.sq_sqrt hp1.le
+  have e2 : √(a ^ 2 + t2 ^ 2) ^ 2 = a ^ 2 + t2 ^ 2 := Real.sq_sqrt hp2.le
+  have ha2 : 0 < a ^ 2 := by positivity
+  rw [div_le_div_iff₀ hs1 hs2]
+  rcases le_total 0 t1 with h1 | h1
+  · -- 0 ≤ t1 ≤ t2
+    have hsq : t1 ^ 2 ≤ t2 ^ 2 := by nlinarith
+    apply le_of_pow_le_pow_left₀ two_ne_zero (mul_nonneg (h1.trans h) hs1.le)
+    · rw [mul_pow, mul_pow, e1, e2]; nlinarith [mul_le_mul_of_nonneg_left hsq ha2.le]
+  · rcases le_total 0 t2 with h2 | h2
+    · have : t1 * √(a ^ 2 + t2 ^ 2) ≤ 0 := mul_nonpos_of_nonpos_of_nonneg h1 hs2.le
+      have : 0 ≤ t2 * √(a ^ 2 + t1 ^ 2) := mul_nonneg h2 hs1.le
+      linarith
+    · -- t1 ≤ t2 ≤ 0
+      have hsq : t2 ^ 2 ≤ t1 ^ 2 := by nlinarith
+      have hh : (-t2) * √(a ^ 2 + t1 ^ 2) ≤ (-t1) * √(a ^ 2 + t2 ^ 2) := by
+        apply le_of_pow_le_pow_left₀ two_ne_zero (mul_nonneg (by linarith) hs2.le)
+        · rw [mul_pow, mul_pow, e1, e2]; nlinarith [mul_le_mul_of_nonneg_left hsq ha2.le]
+      linarith
+
+/-! ## Three-scale grid: clean copies of the nested `let`-functions -/
+
+section Grid3
+open Gen.R.Grid3
+
+/-- `term1` of `Grid3Scales.decompactify` (same expression as in the generated `let`). -/
+noncomputable def term1 (s : Grid3P) (x : ℝ) : ℝ :=
+  ((((((1 : ℝ) - s.ratioPointsWall) * ((((2 : ℝ) * s.ratioPointsWall) * s.tailLengthOutside) - s.wallThickness)) * (WG.R.rartanh ((((1 : ℝ) - x) + (Real.sqrt ((s.aOut ^ 2) + ((x - s.ratioPointsWall) ^ 2)))) / (Real.sqrt ((s.aOut ^ 2) + (((1 : ℝ) - s.ratioPointsWall) ^ 2)))))) / (Real.sqrt ((s.aOut ^ 2) + (((1 : ℝ) - s.ratioPointsWall) ^ 2)))) / s.ratioPointsWall)
+
+noncomputable def term2 (s : Grid3P) (x : ℝ) : ℝ :=
+  (((((-((1 : ℝ) + s.ratioPointsWall)) * ((((2 : ℝ) * s.ratioPointsWall) * s.tailLengthOutside) - s.wallThickness)) * (WG.R.rartanh ((((1 : ℝ) + x) - (Real.sqrt ((s.aOut ^ 2) + ((x - s.ratioPointsWall) ^ 2)))) / (Real.sqrt ((s.aOut ^ 2) + (((1 : ℝ) + s.ratioPointsWall) ^ 2)))))) / (Real.sqrt ((s.aOut ^ 2) + (((1 : ℝ) + s.ratioPointsWall) ^ 2)))) / s.ratioPointsWall)
+
+noncomputable def term3 (s : Grid3P) (x : ℝ) : ℝ :=
+  ((((((1 : ℝ) - s.ratioPointsWall) * ((((2 : ℝ) * s.ratioPointsWall) * s.tailLengthInside) - s.wallThickness)) * (WG.R.rartanh ((((1 : ℝ) + x) - (Real.sqrt ((s.aIn ^ 2) + ((x + s.ratioPointsWall) ^ 2)))) / (Real.sqrt ((s.aIn ^ 2) + (((1 : ℝ) - s.ratioPointsWall) ^ 2)))))) / (Real.sqrt ((s.aIn ^ 2) + (((1 : ℝ) - s.ratioPointsWall) ^ 2)))) / s.ratioPointsWall)
+
+noncomputable def term4 (s : Grid3P) (x : ℝ) : ℝ :=
+  (((((-((1 : ℝ) + s.ratioPointsWall)) * ((((2 : ℝ) * s.ratioPointsWall) * s.tailLengthInside) - s.wallThickness)) * (WG.R.rartanh ((((1 : ℝ) - x) + (Real.sqrt ((s.aIn ^ 2) + ((x + s.ratioPointsWall) ^ 2)))) / (Real.sqrt ((s.aIn ^ 2) + (((1 : ℝ) + s.ratioPointsWall) ^ 2)))))) / (Real.sqrt ((s.aIn ^ 2) + (((1 : ℝ) + s.ratioPointsWall) ^ 2)))) / s.ratioPointsWall)
+
+noncomputable def term5 (s : Grid3P) (x : ℝ) : ℝ :=
+  (((((2 : ℝ) * s.tailLengthInside) + ((2 : ℝ) * s.tailLengthOutside)) - ((((4 : ℝ) * s.smoothing) * s.wallThickness) / s.ratioPointsWall)) * (WG.R.artanh x))
+
+noncomputable def totalMapping (s : Grid3P) (x : ℝ) : ℝ :=
+  ((((((term1 s x) + (term2 s x)) + (term3 s x)) + (term4 s x)) + (term5 s x)) / (2 : ℝ))
+
+/-- The generated position map is `totalMapping χ − totalMapping 0 + wallCenter`. -/
+theorem decompactify_fst_eq (s : Grid3P) (χ a b : ℝ) :
+    (decompactify s χ a b).1 = totalMapping s χ - totalMapping s 0 + s.wallCenter := rfl
+
+theorem decompactify_snd_eq (s : Grid3P) (a ρ b : ℝ) :
+    (decompactify s a ρ b).2.1 = 2 * s.momentumFalloffT * WG.R.artanh ρ := rfl
+
+theorem decompactify_trd_eq (s : Grid3P) (a b ρ : ℝ) :
+    (decompactify s a b ρ).2.2 = -s.momentumFalloffT * Real.log ((1 - ρ) / 2) := rfl
+
+/-- The numerator `f(χ)` of the reported position Jacobian `f(χ)/(1-χ²)`. -/
+noncomputable def fstep (s : Grid3P) (x : ℝ) : ℝ :=
+  ((((((2 : ℝ) * s.tailLengthInside) - (s.wallThickness / s.ratioPointsWall)) * ((1 : ℝ) - ((x + s.ratioPointsWall) / (Real.sqrt ((s.aIn ^ 2) + ((x + s.ratioPointsWall) ^ 2)))))) / (2 : ℝ))
+    + (((((2 : ℝ) * s.tailLengthOutside) - (s.wallThickness / s.ratioPointsWall)) * ((1 : ℝ) + ((x - s.ratioPointsWall) / (Real.sqrt ((s.aOut ^ 2) + ((x - s.ratioPointsWall) ^ 2)))))) / (2 : ℝ)))
+    + ((((1 : ℝ) - ((2 : ℝ) * s.smoothing)) * s.wallThickness) / s.ratioPointsWall)
+
+theorem compactificationDerivatives_fst_eq (s : Grid3P) (χ a b : ℝ) :
+    (compactificationDerivatives s χ a b).1 = fstep s χ / (1 - χ ^ 2) := rfl
+
+theorem compactificationDerivatives_snd_eq (s : Grid3P) (a ρ b : ℝ) :
+    (compactificationDerivatives s a ρ b).2.1 = 2 * s.momentumFalloffT / (1 - ρ ^ 2) := rfl
+
+theorem compactificationDerivatives_trd_eq (s : Grid3P) (a b ρ : ℝ) :
+    (compactificationDerivatives s a b ρ).2.2 = s.momentumFalloffT / (1 - ρ) := rfl
+
+/-! ### Derivatives of the four `arctanh` factors -/
+
+/-- Type "P" factor (term1, term4): argument `(1 - x + √(a²+(x-c)²))/√(a²+(1-c)²)`.
+Needs only `a ≠ 0` and `x ≠ 1`. -/
+theorem hasDerivAt_factorP {a c x : ℝ} (ha : a ≠ 0) (hx : x ≠ 1) :
+    HasDerivAt (fun x => WG.R.rartanh ((1 - x + √(a ^ 2 + (x - c) ^ 2)) / √(a ^ 2 + (1 - c) ^ 2)))
+      (√(a ^ 2 + (1 - c) ^ 2) / (2 * √(a ^ 2 + (x - c) ^ 2) * (1 - x))) x := by
+  set A := √(a ^ 2 + (1 - c) ^ 2) with hA
+  set s := √(a ^ 2 + (x - c) ^ 2) with hs
+  have hpos : 0 < a ^ 2 + (x - c) ^ 2 := by positivity
+  have hposA : 0 < a ^ 2 + (1 - c) ^ 2 := by positivity
+  have hs0 : 0 < s := Real.sqrt_pos.mpr hpos
+  have hA0 : 0 < A := Real.sqrt_pos.mpr hposA
+  have hs2 : s ^ 2 = a ^ 2 + (x - c) ^ 2 := Real.sq_sqrt hpos.le
+  have hA2 : A ^ 2 = a ^ 2 + (1 - c) ^ 2 := Real.sq_sqrt hposA.le
+  have ha2 : 0 < a ^ 2 := by positivity
+  have hsgt : |x - c| < s := by
+    rw [hs]; apply Real.lt_sqrt_of_sq_lt; rw [sq_abs]; linarith
+  have hxrs : x - c - s < 0 := by have := le_abs_self (x - c); linarith
+  have hsq : HasDerivAt (fun x => √(a ^ 2 + (x - c) ^ 2)) ((2 * (x - c)) / (2 * s)) x := by
+    have h0 : HasDerivAt (fun x : ℝ => a ^ 2 + (x - c) ^ 2) (2 * (x - c)) x := by
+      have := ((hasDerivAt_id x).sub_const c).pow 2
+      simpa using this.const_add (a ^ 2)
+    exact h0.sqrt hpos.ne'
+  have hu : HasDerivAt (fun x => (1 - x + √(a ^ 2 + (x - c) ^ 2)) / A)
+      ((-1 + (2 * (x - c)) / (2 * s)) / A) x := by
+    apply HasDerivAt.div_const
+    exact ((hasDerivAt_id x).const_sub 1).add hsq
+  have key : A ^ 2 - (1 - x + s) ^ 2 = 2 * (1 - x) * (x - c - s) := by
+    rw [hA2]; nlinarith [hs2]
+  have h1x : 1 - x ≠ 0 := sub_ne_zero.mpr (Ne.symm hx)
+  have hkne : A ^ 2 - (1 - x + s) ^ 2 ≠ 0 := by
+    rw [key]; exact mul_ne_zero (mul_ne_zero two_ne_zero h1x) hxrs.ne
+  have hu2 : 1 - ((1 - x + s) / A) ^ 2 = (A ^ 2 - (1 - x + s) ^ 2) / A ^ 2 := by field_simp
+  have hne : 1 - ((1 - x + s) / A) ^ 2 ≠ 0 := by
+    rw [hu2]; exact div_ne_zero hkne (by positivity)
+  have := (hasDerivAt_rartanh hne).comp x hu
+  refine HasDerivAt.congr_deriv
+    (f := fun x => WG.R.rartanh ((1 - x + √(a ^ 2 + (x - c) ^ 2)) / A)) this ?_
+  have hA' : A ≠ 0 := hA0.ne'
+  have hs' : s ≠ 0 := hs0.ne'
+  rw [hu2, key]
+  have hne2 : x - c - s ≠ 0 := hxrs.ne
+  field_simp
+  ring
+
+/-- Type "M" factor (term2, term3): argument `(1 + x - √(a²+(x-c)²))/√(a²+(1+c)²)`.
+Needs only `a ≠ 0` and `x ≠ -1`. -/
+theorem hasDerivAt_factorM {a c x : ℝ} (ha : a ≠ 0) (hx : x ≠ -1) :
+    HasDerivAt (fun x => WG.R.rartanh ((1 + x - √(a ^ 2 + (x - c) ^ 2)) / √(a ^ 2 + (1 + c) ^ 2)))
+      (√(a ^ 2 + (1 + c) ^ 2) / (2 * √(a ^ 2 + (x - c) ^ 2) * (1 + x))) x := by
+  set A := √(a ^ 2 + (1 + c) ^ 2) with hA
+  set s := √(a ^ 2 + (x - c) ^ 2) with hs
+  have hpos : 0 < a ^ 2 + (x - c) ^ 2 := by positivity
+  have hposA : 0 < a ^ 2 + (1 + c) ^ 2 := by positivity
+  have hs0 : 0 < s := Real.sqrt_pos.mpr hpos
+  have hA0 : 0 < A := Real.sqrt_pos.mpr hposA
+  have hs2 : s ^ 2 = a ^ 2 + (x - c) ^ 2 := Real.sq_sqrt hpos.le
+  have hA2 : A ^ 2 = a ^ 2 + (1 + c) ^ 2 := Real.sq_sqrt hposA.le
+  have ha2 : 0 < a ^ 2 := by positivity
+  have hsgt : |x - c| < s := by
+    rw [hs]; apply Real.lt_sqrt_of_sq_lt; rw [sq_abs]; linarith
+  have hxrs : 0 < s - (x - c) := by have := le_abs_self (x - c); linarith
+  have hsq : HasDerivAt (fun x => √(a ^ 2 + (x - c) ^ 2)) ((2 * (x - c)) / (2 * s)) x := by
+    have h0 : HasDerivAt (fun x : ℝ => a ^ 2 + (x - c) ^ 2) (2 * (x - c)) x := by
+      have := ((hasDerivAt_id x).sub_const c).pow 2
+      simpa using this.const_add (a ^ 2)
+    exact h0.sqrt hpos.ne'
+  have hu : HasDerivAt (fun x => (1 + x - √(a ^ 2 + (x - c) ^ 2)) / A)
+      ((1 - (2 * (x - c)) / (2 * s)) / A) x := by
+    apply HasDerivAt.div_const
+    exact ((hasDerivAt_id x).const_add 1).sub hsq
+  have key : A ^ 2 - (1 + x - s) ^ 2 = 2 * (1 + x) * (s - (x - c)) := by
+    rw [hA2]; nlinarith [hs2]
+  have h1x : 1 + x ≠ 0 := fun h => hx (by linarith)
+  have hkne : A ^ 2 - (1 + x - s) ^ 2 ≠ 0 := by
+    rw [key]; exact mul_ne_zero (mul_ne_zero two_ne_zero h1x) hxrs.ne'
+  have hu2 : 1 - ((1 + x - s) / A) ^ 2 = (A ^ 2 - (1 + x - s) ^ 2) / A ^ 2 := by field_simp
+  have hne : 1 - ((1 + x - s) / A) ^ 2 ≠ 0 := by
+    rw [hu2]; exact div_ne_zero hkne (by positivity)
+  have := (hasDerivAt_rartanh hne).comp x hu
+  refine HasDerivAt.congr_deriv
+    (f := fun x => WG.R.rartanh ((1 + x - √(a ^ 2 + (x - c) ^ 2)) / A)) this ?_
+  have hA' : A ≠ 0 := hA0.ne'
+  have hs' : s ≠ 0 := hs0.ne'
+  rw [hu2, key]
+  have hne2 : s - (x - c) ≠ 0 := hxrs.ne'
+  field_simp
+
+/-! ### Derivatives of `term1 … term5` and of the total map -/
+
+theorem hasDerivAt_term1 {s : Grid3P} {x : ℝ} (ha : s.aOut ≠ 0) (hr : s.ratioPointsWall ≠ 0)
+    (hx : x ≠ 1) :
+    HasDerivAt (term1 s)
+      ((1 - s.ratioPointsWall) * (2 * s.ratioPointsWall * s.tailLengthOutside - s.wallThickness)
+        / (2 * s.ratioPointsWall * √(s.aOut ^ 2 + (x - s.ratioPointsWall) ^ 2) * (1 - x))) x := by
+  have hA : 0 < √(s.aOut ^ 2 + (1 - s.ratioPointsWall) ^ 2) := Real.sqrt_pos.mpr (by positivity)
+  have hS : 0 < √(s.aOut ^ 2 + (x - s.ratioPointsWall) ^ 2) := Real.sqrt_pos.mpr (by positivity)
+  have h1x : 1 - x ≠ 0 := sub_ne_zero.mpr (Ne.symm hx)
+  have h := (((hasDerivAt_factorP (c := s.ratioPointsWall) ha hx).const_mul
+    ((1 - s.ratioPointsWall) * (2 * s.ratioPointsWall * s.tailLengthOutside - s.wallThickness))).div_const
+      (√(s.aOut ^ 2 + (1 - s.ratioPointsWall) ^ 2))).div_const s.ratioPointsWall
+  refine HasDerivAt.congr_deriv (f := term1 s) h ?_
+  field_simp
+
+theorem hasDerivAt_term2 {s : Grid3P} {x : ℝ} (ha : s.aOut ≠ 0) (hr : s.ratioPointsWall ≠ 0)
+    (hx : x ≠ -1) :
+    HasDerivAt (term2 s)
+      (-(1 + s.ratioPointsWall) * (2 * s.ratioPointsWall * s.tailLengthOutside - s.wallThickness)
+        / (2 * s.ratioPointsWall * √(s.aOut ^ 2 + (x - s.ratioPointsWall) ^ 2) * (1 + x))) x := by
+  have hA : 0 < √(s.aOut ^ 2 + (1 + s.ratioPointsWall) ^ 2) := Real.sqrt_pos.mpr (by positivity)
+  have hS : 0 < √(s.aOut ^ 2 + (x - s.ratioPointsWall) ^ 2) := Real.sqrt_pos.mpr (by positivity)
+  have h1x : 1 + x ≠ 0 := fun h => hx (by linarith)
+  have h := (((hasDerivAt_factorM (c := s.ratioPointsWall) ha hx).const_mul
+    (-(1 + s.ratioPointsWall) * (2 * s.ratioPointsWall * s.tailLengthOutside - s.wallThickness))).div_const
+      (√(s.aOut ^ 2 + (1 + s.ratioPointsWall) ^ 2))).div_const s.ratioPointsWall
+  refine HasDerivAt.congr_deriv (f := term2 s) h ?_
+  field_simp
+
+theorem hasDerivAt_term3 {s : Grid3P} {x : ℝ} (ha : s.aIn ≠ 0) (hr : s.ratioPointsWall ≠ 0)
+    (hx : x ≠ -1) :
+    HasDerivAt (term3 s)
+      ((1 - s.ratioPointsWall) * (2 * s.ratioPointsWall * s.tailLengthInside - s.wallThickness)
+        / (2 * s.ratioPointsWall * √(s.aIn ^ 2 + (x + s.ratioPointsWall) ^ 2) * (1 + x))) x := by
+  have hA : 0 < √(s.aIn ^ 2 + (1 - s.ratioPointsWall) ^ 2) := Real.sqrt_pos.mpr (by positivity)
+  have hS : 0 < √(s.aIn ^ 2 + (x + s.ratioPointsWall) ^ 2) := Real.sqrt_pos.mpr (by positivity)
+  have h1x : 1 + x ≠ 0 := fun h => hx (by linarith)
+  have h0 := hasDerivAt_factorM (c := -s.ratioPointsWall) ha hx
+  simp only [sub_neg_eq_add, ← sub_eq_add_neg] at h0
+  have h := ((h0.const_mul
+    ((1 - s.ratioPointsWall) * (2 * s.ratioPointsWall * s.tailLengthInside - s.wallThickness))).div_const
+      (√(s.aIn ^ 2 + (1 - s.ratioPointsWall) ^ 2))).div_const s.ratioPointsWall
+  refine HasDerivAt.congr_deriv (f := term3 s) h ?_
+  field_simp
+
+theorem hasDerivAt_term4 {s : Grid3P} {x : ℝ} (ha : s.aIn ≠ 0) (hr : s.ratioPointsWall ≠ 0)
+    (hx : x ≠ 1) :
+    HasDerivAt (term4 s)
+      (-(1 + s.ratioPointsWall) * (2 * s.ratioPointsWall * s.tailLengthInside - s.wallThickness)
+        / (2 * s.ratioPointsWall * √(s.aIn ^ 2 + (x + s.ratioPointsWall) ^ 2) * (1 - x))) x := by
+  have hA : 0 < √(s.aIn ^ 2 + (1 + s.ratioPointsWall) ^ 2) := Real.sqrt_pos.mpr (by positivity)
+  have hS : 0 < √(s.aIn ^ 2 + (x + s.ratioPointsWall) ^ 2) := Real.sqrt_pos.mpr (by positivity)
+  have h1x : 1 - x ≠ 0 := sub_ne_zero.mpr (Ne.symm hx)
+  have h0 := hasDerivAt_factorP (c := -s.ratioPointsWall) ha hx
+  simp only [sub_neg_eq_add] at h0
+  have h := ((h0.const_mul
+    (-(1 + s.ratioPointsWall) * (2 * s.ratioPointsWall * s.tailLengthInside - s.wallThickness))).div_const
+      (√(s.aIn ^ 2 + (1 + s.ratioPointsWall) ^ 2))).div_const s.ratioPointsWall
+  refine HasDerivAt.congr_deriv (f := term4 s) h ?_
+  field_simp
+
+theorem hasDerivAt_term5 {s : Grid3P} {x : ℝ} (hx : |x| < 1) :
+    HasDerivAt (term5 s)
+      ((2 * s.tailLengthInside + 2 * s.tailLengthOutside
+          - 4 * s.smoothing * s.wallThickness / s.ratioPointsWall) * (1 / (1 - x ^ 2))) x := by
+  have := abs_lt.mp hx
+  exact (hasDerivAt_artanh this.1 this.2).const_mul _
+
+/-- **Jacobian identity for the three-scale position map** (before subtracting the constant):
+needs only `aIn ≠ 0`, `aOut ≠ 0`, `r ≠ 0`, `|x| < 1`. -/
+theorem hasDerivAt_totalMapping {s : Grid3P} {x : ℝ} (haIn : s.aIn ≠ 0) (haOut : s.aOut ≠ 0)
+    (hr : s.ratioPointsWall ≠ 0) (hx : |x| < 1) :
+    HasDerivAt (totalMapping s) (fstep s x / (1 - x ^ 2)) x := by
+  have hx' := abs_lt.mp hx
+  have hx1 : x ≠ 1 := hx'.2.ne
+  have hxm1 : x ≠ -1 := hx'.1.ne'
+  have h := (((((hasDerivAt_term1 haOut hr hx1).add (hasDerivAt_term2 haOut hr hxm1)).add
+    (hasDerivAt_term3 haIn hr hxm1)).add (hasDerivAt_term4 haIn hr hx1)).add
+    (hasDerivAt_term5 (s := s) hx)).div_const 2
+  refine HasDerivAt.congr_deriv (f := totalMapping s) h ?_
+  unfold fstep
+  have hSi : 0 < √(s.aIn ^ 2 + (x + s.ratioPointsWall) ^ 2) := Real.sqrt_pos.mpr (by positivity)
+  have hSo : 0 < √(s.aOut ^ 2 + (x - s.ratioPointsWall) ^ 2) := Real.sqrt_pos.mpr (by positivity)
+  generalize √(s.aIn ^ 2 + (x + s.ratioPointsWall) ^ 2) = si at *
+  generalize √(s.aOut ^ 2 + (x - s.ratioPointsWall) ^ 2) = so at *
+  have h1 : 1 - x ≠ 0 := sub_ne_zero.mpr (Ne.symm hx1)
+  have h2 : 1 + x ≠ 0 := fun h => hxm1 (by linarith)
+  have h3 : 1 - x ^ 2 ≠ 0 := (one_sub_sq_pos hx).ne'
+  have e : 1 - x ^ 2 = (1 - x) * (1 + x) := by ring
+  rw [e]
+  field_simp
+  ring
+
+/-- Jacobian identity for the generated position map of the three-scale grid. -/
+theorem hasDerivAt_decompactify3_fst {s : Grid3P} {χ : ℝ} (a b : ℝ) (haIn : s.aIn ≠ 0)
+    (haOut : s.aOut ≠ 0) (hr : s.ratioPointsWall ≠ 0) (hχ : |χ| < 1) :
+    HasDerivAt (fun χ => (decompactify s χ a b).1) (compactificationDerivatives s χ a b).1 χ := by
+  rw [compactificationDerivatives_fst_eq]
+  exact ((hasDerivAt_totalMapping haIn haOut hr hχ).sub_const (totalMapping s 0)).add_const
+    s.wallCenter
+
+/-! ### Well-formedness: what `_updateParameters` asserts and stores -/
+
+/-- The state `Grid3Scales._updateParameters` leaves behind: its five `assert`s hold and
+`aIn`, `aOut` are the values it assigns. -/
+structure Grid3WF (s : Grid3P) : Prop where
+  wallThickness_pos : 0 < s.wallThickness
+  smoothing_pos : 0 < s.smoothing
+  tailIn_gt : s.tailLengthInside > s.wallThickness * (1 / 2 + s.smoothing) / s.ratioPointsWall
+  tailOut_gt : s.tailLengthOutside > s.wallThickness * (1 / 2 + s.smoothing) / s.ratioPointsWall
+  ratio_pos : 0 < s.ratioPointsWall
+  ratio_lt_one : s.ratioPointsWall < 1
+  aIn_eq : s.aIn = aIn_set s.tailLengthInside s.tailLengthOutside s.wallThickness
+    s.ratioPointsWall s.smoothing s.wallCenter
+  aOut_eq : s.aOut = aOut_set s.tailLengthInside s.tailLengthOutside s.wallThickness
+    s.ratioPointsWall s.smoothing s.wallCenter
+
+/-- The algebra behind the choice of `aIn`/`aOut`: with `a` as assigned by the constructor, the
+smoothed step `(2t − L/r)(1 − r/√(a²+r²))/2` takes the value `σ L / r` at the origin. -/
+theorem stepParam {t L r σ a : ℝ} (hL : 0 < L) (hr : 0 < r) (hσ : 0 < σ)
+    (ht : t > L * (1 / 2 + σ) / r)
+    (ha : a = √(4 * σ * L * r ^ 2 * (2 * r * t - L * (1 + σ))) / |2 * r * t - L * (1 + 2 * σ)|) :
+    0 < a ∧ 0 < 2 * t - L / r ∧ (2 * t - L / r) * (1 - r / √(a ^ 2 + r ^ 2)) / 2 = σ * L / r := by
+  have ht' : L * (1 / 2 + σ) < t * r := (div_lt_iff₀ hr).mp ht
+  have hσL : 0 < σ * L := mul_pos hσ hL
+  have hD : 0 < 2 * r * t - L * (1 + 2 * σ) := by nlinarith
+  have h1 : 0 < 2 * r * t - L * (1 + σ) := by nlinarith
+  have h2 : 0 < 2 * r * t - L := by nlinarith
+  have hX : 0 < 4 * σ * L * r ^ 2 * (2 * r * t - L * (1 + σ)) := by positivity
+  rw [abs_of_pos hD] at ha
+  have ha0 : 0 < a := by rw [ha]; exact div_pos (Real.sqrt_pos.mpr hX) hD
+  have ha2 : a ^ 2 = 4 * σ * L * r ^ 2 * (2 * r * t - L * (1 + σ))
+      / (2 * r * t - L * (1 + 2 * σ)) ^ 2 := by
+    rw [ha, div_pow, Real.sq_sqrt hX.le]
+  have e : a ^ 2 + r ^ 2 = (r * (2 * r * t - L) / (2 * r * t - L * (1 + 2 * σ))) ^ 2 := by
+    rw [ha2]; field_simp; ring
+  have hP : 0 < 2 * t - L / r := by
+    have : 2 * t - L / r = (2 * r * t - L) / r := by field_simp
+    rw [this]; exact div_pos h2 hr
+  refine ⟨ha0, hP, ?_⟩
+  rw [e, Real.sqrt_sq (div_nonneg (mul_nonneg hr.le h2.le) hD.le)]
+  have hr' := hr.ne'
+  have hD' := hD.ne'
+  have h2' := h2.ne'
+  field_simp
+  ring
+
+namespace Grid3WF
+
+variable {s : Grid3P} (h : Grid3WF s)
+include h
+
+theorem paramIn : 0 < s.aIn ∧ 0 < 2 * s.tailLengthInside - s.wallThickness / s.ratioPointsWall ∧
+    (2 * s.tailLengthInside - s.wallThickness / s.ratioPointsWall)
+      * (1 - s.ratioPointsWall / √(s.aIn ^ 2 + s.ratioPointsWall ^ 2)) / 2
+      = s.smoothing * s.wallThickness / s.ratioPointsWall :=
+  stepParam h.wallThickness_pos h.ratio_pos h.smoothing_pos h.tailIn_gt h.aIn_eq
+
+theorem paramOut : 0 < s.aOut ∧ 0 < 2 * s.tailLengthOutside - s.wallThickness / s.ratioPointsWall ∧
+    (2 * s.tailLengthOutside - s.wallThickness / s.ratioPointsWall)
+      * (1 - s.ratioPointsWall / √(s.aOut ^ 2 + s.ratioPointsWall ^ 2)) / 2
+      = s.smoothing * s.wallThickness / s.ratioPointsWall :=
+  stepParam h.wallThickness_pos h.ratio_pos h.smoothing_pos h.tailOut_gt h.aOut_eq
+
+theorem aIn_pos : 0 < s.aIn := h.paramIn.1
+theorem aOut_pos : 0 < s.aOut := h.paramOut.1
+
+/-- `f(0) = L/r`. -/
+theorem fstep_zero : fstep s 0 = s.wallThickness / s.ratioPointsWall := by
+  unfold fstep
+  simp only [zero_add, zero_sub, neg_sq]
+  linear_combination h.paramIn.2.2 + h.paramOut.2.2
+
+/-- `f(χ) ≥ (1-σ) L / r` for every real `χ`. -/
+theorem fstep_ge (x : ℝ) :
+    (1 - s.smoothing) * s.wallThickness / s.ratioPointsWall ≤ fstep s x := by
+  obtain ⟨haI, hPI, hI⟩ := h.paramIn
+  obtain ⟨haO, hPO, hO⟩ := h.paramOut
+  have hr := h.ratio_pos
+  have gi := abs_lt.mp (step_abs_lt_one haI.ne' (x + s.ratioPointsWall))
+  have go := abs_lt.mp (step_abs_lt_one haO.ne' (x - s.ratioPointsWall))
+  unfold fstep
+  rcases le_total 0 x with hx | hx
+  · -- outside step is above its value at the origin, inside step is nonnegative
+    have hm := step_mono haO.ne' (show -s.ratioPointsWall ≤ x - s.ratioPointsWall by linarith)
+    rw [neg_sq, neg_div] at hm
+    have e1 := mul_le_mul_of_nonneg_left hm hPO.le
+    have e2 := mul_nonneg hPI.le (show (0 : ℝ) ≤ 1 - (x + s.ratioPointsWall)
+      / √(s.aIn ^ 2 + (x + s.ratioPointsWall) ^ 2) by linarith [gi.2])
+    linear_combination hO + e1 / 2 + e2 / 2
+  · have hm := step_mono haI.ne' (show x + s.ratioPointsWall ≤ s.ratioPointsWall by linarith)
+    have e1 := mul_le_mul_of_nonneg_left hm hPI.le
+    have e2 := mul_nonneg hPO.le (show (0 : ℝ) ≤ 1 + (x - s.ratioPointsWall)
+      / √(s.aOut ^ 2 + (x - s.ratioPointsWall) ^ 2) by linarith [go.1])
+    linear_combination hI + e1 / 2 + e2 / 2
+
+end Grid3WF
+
+/-! ### Generic monotonicity helpers -/
+
+theorem strictMonoOn_of_hasDerivAt_pos {f f' : ℝ → ℝ} {D : Set ℝ} (hD : Convex ℝ D)
+    (hf : ∀ x ∈ D, HasDerivAt f (f' x) x) (hpos : ∀ x ∈ D, 0 < f' x) : StrictMonoOn f D :=
+  strictMonoOn_of_deriv_pos hD (fun x hx => (hf x hx).continuousAt.continuousWithinAt)
+    (fun x hx => by rw [(hf x (interior_subset hx)).deriv]; exact hpos _ (interior_subset hx))
+
+/-- A function that is monotone on an open interval has nonnegative derivative there. -/
+theorem deriv_nonneg_of_monotoneOn_Ioo {f : ℝ → ℝ} {u v x d : ℝ} (hx : x ∈ Ioo u v)
+    (hf : MonotoneOn f (Ioo u v)) (hd : HasDerivAt f d x) : 0 ≤ d := by
+  have hp : Preperfect (Ioo u v) := by
+    simpa using (PerfectSpace.univ_preperfect ℝ).open_inter (U := Ioo u v) isOpen_Ioo
+  exact hd.hasDerivWithinAt.nonneg_of_monotoneOn (hp x hx) hf
+
+end Grid3
+
 end WG.GridMaps
